@@ -78,6 +78,8 @@ def make_script(d):
     def script(req, ordinal):
         if req.path == "/c":
             return loopback.json_reply(201, {"id": 7})
+        if req.path == "/tw" and req.method == "POST" and d.get("tw_fail") and b'"n": 3' in req.body.replace(b'"n":3', b'"n": 3'):
+            return loopback.json_reply(500, {"e": "n=3"})
         if req.path == "/tw" and req.method == "POST" and not slow["done"]:
             # same answer, later: with several workers the sibling operation overtakes this one
             slow["done"] = True
@@ -107,6 +109,10 @@ def pair_case(draw):
         "max_examples": draw(st.integers(3, 8)),
         "workers": draw(st.sampled_from([2, 3, 4])),
         "unique": draw(st.booleans()),
+        # an explicitly configured set of methods for the coverage phase's "unspecified method" cases (shared by every operation)
+        "unexpected_methods": draw(st.sampled_from([None, None, ["get", "post", "put"], ["delete", "patch", "post"]])),
+        # workers clause: a directory database (the CLI default) that is fresh for each run, and a reproducible failure of POST /tw
+        "db_and_twin_failure": draw(st.booleans()),
     }
 
 
@@ -123,7 +129,8 @@ def failing(record):
 
 
 def _cfg(inp, workers=1):
-    return {"phases": inp["phases"], "modes": inp["modes"], "seed": inp["seed"], "max_examples": inp["max_examples"], "stateful_step_count": 3, "workers": workers, "no_shrink": True, "checks": ["not_a_server_error"], "unique_inputs": bool(inp.get("unique"))}
+    extra = {"generation": {"unexpected_methods": set(inp["unexpected_methods"])}} if inp.get("unexpected_methods") else {}
+    return {**extra, "phases": inp["phases"], "modes": inp["modes"], "seed": inp["seed"], "max_examples": inp["max_examples"], "stateful_step_count": 3, "workers": workers, "no_shrink": True, "checks": ["not_a_server_error"], "unique_inputs": bool(inp.get("unique"))}
 
 
 def _nontrivial(inp, n_requests) -> bool:
@@ -169,16 +176,25 @@ def check_workers(ctx: Ctx, inp) -> None:
     phases = [p for p in inp["phases"] if p != "stateful"] or ["fuzzing"]
     doc = build_doc(dict(inp["doc"], fail_over=None))
     results = []
+    with_db = bool(inp.get("db_and_twin_failure")) and inp["doc"].get("twin")
     for workers in (1, inp["workers"]):
-        server = loopback.shared(make_script(dict(inp["doc"], fail_over=None)))
-        record = engine_run.run_engine(json.loads(json.dumps(doc)), dict(_cfg(inp, workers), phases=phases), server)
+        server = loopback.shared(make_script(dict(inp["doc"], fail_over=None, tw_fail=with_db)))
+        cfg = dict(_cfg(inp, workers), phases=phases)
+        dbdir = tempfile.mkdtemp(prefix="vfw-c13-db-", dir="/var/tmp") if with_db else None
+        if dbdir:
+            cfg["database_dir"] = dbdir
+        try:
+            record = engine_run.run_engine(json.loads(json.dumps(doc)), cfg, server)
+        finally:
+            if dbdir:
+                shutil.rmtree(dbdir, ignore_errors=True)
         per_op: dict = {}
         for r in normalise(record.requests, server.server.server_port):
             per_op.setdefault((r[0], r[1].split("?")[0]), []).append(json.dumps(r))
         results.append(({k: sorted(v) for k, v in per_op.items()}, record.exception))
     (one, e1), (many, e2) = results
     n = sum(len(v) for v in one.values())
-    ctx.case(nontrivial=inp if _nontrivial(inp, n) else None, classes=[f"workers={inp['workers']}", f"phases={'+'.join(phases)}"], sample={"input": inp, "requests": n})
+    ctx.case(nontrivial=inp if _nontrivial(inp, n) else None, classes=[f"workers={inp['workers']}", f"phases={'+'.join(phases)}", "database+failing-twin" if with_db else "no-database"], sample={"input": inp, "requests": n})
     if e1 or e2:
         ctx.disagree("workers:engine-exception", f"{e1 or e2}", input=inp)
         return
